@@ -10,7 +10,7 @@ PROPERTY = "C07"
 SHARDS = {"quick": 8, "thorough": 16}
 RULE = (
     "cases: seeded meshes (uniform and mixed face sizes, partial / global, lon-lat-only and xyz-bearing sources: "
-    "explicit topology, UGRID dataset, MPAS, Exodus, face vertices) x output format {ugrid, exodus, scrip} x {direct "
+    "explicit topology, UGRID dataset, MPAS, Exodus, face vertices; UGRID / MPAS / Exodus sources also written to a NetCDF file and opened from its path, so that the grid carries the file's storage encodings) x output format {ugrid, exodus, scrip} x {direct "
     "dataset, NetCDF file} x {to_xarray, encode_as} x a seeded subset of derived quantities materialised first (edges, "
     "face_edge, node_face, face_face, centres, areas, bounds, distances, trees, hole edges) x a prefix of 0..3 "
     "encodings of OTHER grids (larger with edges / smaller without) in the same process x 0..2 earlier encodings of the SAME grid object in any format. Oracle: re-opened faces equal "
@@ -24,7 +24,7 @@ MATERIALISE = ["edge_node_connectivity", "face_edge_connectivity", "node_face_co
                "face_lon", "edge_lon", "node_x", "face_areas", "bounds", "edge_node_distances", "edge_face_distances", "hole_edge_indices",
                "ball_tree", "kd_tree", "n_nodes_per_face", "antimeridian_face_indices"]
 MIN_EVAL = {"quick": {"roundtrip_faces": 250, "self_consistent": 80, "writable": 250}, "thorough": {"roundtrip_faces": 5000, "self_consistent": 1600, "writable": 5000}}
-SOURCES = ["topology", "ugrid", "mpas", "exodus", "face_vertices_xyz"]
+SOURCES = ["topology", "ugrid", "mpas", "exodus", "face_vertices_xyz", "ugrid_file", "ugrid_file", "mpas_file", "exodus_file"]
 
 
 def cases(tier, seed):
@@ -46,8 +46,38 @@ def _workdir():
     return p
 
 
+def _from_file(ds, rng, **kw):
+    """the source dataset written to a NetCDF file and opened from its path: the grid's variables then carry the file's storage
+    encodings (types, fill values, chunking)"""
+    U = ux.ux()
+    path = os.path.join(_workdir(), "src_%d.nc" % int(rng.integers(0, 10**9)))
+    try:
+        try:
+            ds.to_netcdf(path)
+        except Exception:  # the writer (xarray), not the library: in memory then
+            return U.open_grid(ds, **kw)
+        g = U.open_grid(path, **kw)
+        g.face_node_connectivity.values  # (loaded before the file goes away)
+        g.node_lon.values, g.node_lat.values
+        return g
+    finally:
+        try:
+            os.remove(path)
+        except OSError:
+            pass
+
+
 def build_grid(source, m, rng):
     U = ux.ux()
+    if source == "ugrid_file":
+        ds, info = dialects.ugrid_dataset(m, rng, force={"transposed": False})
+        return _from_file(ds, rng), info["expect"]
+    if source == "mpas_file":
+        ds, info = dialects.mpas_dataset(m, rng)
+        return _from_file(ds, rng), info["expect"]
+    if source == "exodus_file":
+        ds, info = dialects.exodus_dataset(m, rng)
+        return _from_file(ds, rng), info["expect"]
     if source == "topology":
         return ux.grid_from_mesh(m), m
     if source == "ugrid":
